@@ -28,6 +28,9 @@ pub enum PayMode {
 thread_local! {
     /// per-thread knob read by Proc::start: delay of automatic getinfo replies (slow lightningd at startup)
     pub static GETINFO_DELAY_MS: std::cell::Cell<u64> = const { std::cell::Cell::new(0) };
+    /// datastore records (key, string) and hashes with a complete part that exist before the plugin starts
+    /// (consumed by the next Proc::start of this thread)
+    pub static PRESET: std::cell::RefCell<(Vec<(Vec<String>, String)>, Vec<[u8; 32]>)> = const { std::cell::RefCell::new((Vec::new(), Vec::new())) };
 }
 
 pub struct Proc {
@@ -117,6 +120,15 @@ impl Proc {
         for p in preimages {
             use secp256k1::hashes::{sha256, Hash};
             node.preimages.insert(sha256::Hash::hash(p).to_byte_array(), *p);
+        }
+        let (recs, done) = PRESET.with(|p| std::mem::take(&mut *p.borrow_mut()));
+        for (k, v) in recs {
+            node.datastore.insert(k, (v, 0));
+        }
+        for h in done {
+            let g = node.new_group();
+            let uid = node.add_part(h, g, None);
+            node.parts[uid].status = PartStatus::Complete;
         }
         let shared = Arc::new(Mutex::new(Shared {
             node,
@@ -628,7 +640,7 @@ fn run_height(c: &HeightCase) -> CaseReport {
     let max_before_burst = c.blocks.iter().cloned().chain([c.start]).max().unwrap();
     let max_told = max_before_burst + c.burst as u32;
     let cfg = Cfg { mpp_timeout_s: 1, ..Cfg::default() };
-    let pay = PaymentSpec { preimage: 0x33, invoice_amount: Some(1_000_000), tlv_amount: 1_000_000, hints: Hints::None, explicit_payee: false, recipient_ok: false, drain_parts: 0 };
+    let pay = PaymentSpec { preimage_hi: 0, preimage: 0x33, invoice_amount: Some(1_000_000), tlv_amount: 1_000_000, hints: Hints::None, explicit_payee: false, recipient_ok: false, drain_parts: 0 };
     let need = needed_total(&cfg, 1_000_000);
     let expiry = max_told + c.expiry_above;
     let h = HtlcSpec { pay: 0, hash_of: None, amount_msat: need, total_msat: Some(need), forward_msat: Some(need), cltv_expiry: expiry, cltv_rel: 1100, forward: false, meta: Meta::Normal, extra: vec![], raw_payload: None };
@@ -721,7 +733,7 @@ fn run_slow_pay(c: &SlowPay) -> CaseReport {
         return rep;
     }
     let cfg = Cfg { mpp_timeout_s: 1, ..Cfg::default() };
-    let pay = PaymentSpec { preimage: 0x35, invoice_amount: Some(1_000_000), tlv_amount: 1_000_000, hints: Hints::None, explicit_payee: false, recipient_ok: true, drain_parts: 1 };
+    let pay = PaymentSpec { preimage_hi: 0, preimage: 0x35, invoice_amount: Some(1_000_000), tlv_amount: 1_000_000, hints: Hints::None, explicit_payee: false, recipient_ok: true, drain_parts: 1 };
     let need = needed_total(&cfg, 1_000_000);
     let h = HtlcSpec { pay: 0, hash_of: None, amount_msat: need, total_msat: Some(need), forward_msat: Some(need), cltv_expiry: 1000 + 1200, cltv_rel: 1100, forward: false, meta: Meta::Normal, extra: vec![], raw_payload: None };
     let scn = crate::props::c13::blank(vec![pay.clone()], vec![h], 1);
@@ -803,7 +815,7 @@ fn run_isolation(c: &IsolationCase) -> CaseReport {
         return rep;
     }
     let cfg = Cfg { mpp_timeout_s: 1, ..Cfg::default() };
-    let pay = PaymentSpec { preimage: 0x36, invoice_amount: Some(1_000_000), tlv_amount: 1_000_000, hints: Hints::None, explicit_payee: false, recipient_ok: true, drain_parts: 1 };
+    let pay = PaymentSpec { preimage_hi: 0, preimage: 0x36, invoice_amount: Some(1_000_000), tlv_amount: 1_000_000, hints: Hints::None, explicit_payee: false, recipient_ok: true, drain_parts: 1 };
     let need = needed_total(&cfg, 1_000_000);
     let h = HtlcSpec { pay: 0, hash_of: None, amount_msat: need, total_msat: Some(need), forward_msat: Some(need), cltv_expiry: 1000 + 1200, cltv_rel: 1100, forward: false, meta: Meta::Normal, extra: vec![], raw_payload: None };
     let scn = crate::props::c13::blank(vec![pay.clone()], vec![h], 1);
@@ -915,7 +927,7 @@ fn run_err_text(c: &ErrText) -> CaseReport {
     }
     let cfg = Cfg { mpp_timeout_s: 1, ..Cfg::default() };
     let need = needed_total(&cfg, 1_000_000);
-    let payments: Vec<PaymentSpec> = (0..3).map(|i| PaymentSpec { preimage: 0x40 + i, invoice_amount: Some(1_000_000), tlv_amount: 1_000_000, hints: Hints::None, explicit_payee: false, recipient_ok: true, drain_parts: 1 }).collect();
+    let payments: Vec<PaymentSpec> = (0..3).map(|i| PaymentSpec { preimage_hi: 0, preimage: 0x40 + i, invoice_amount: Some(1_000_000), tlv_amount: 1_000_000, hints: Hints::None, explicit_payee: false, recipient_ok: true, drain_parts: 1 }).collect();
     let htlcs: Vec<HtlcSpec> = (0..3).map(|i| HtlcSpec { pay: i, hash_of: None, amount_msat: need, total_msat: Some(need), forward_msat: Some(need), cltv_expiry: 1000 + 1200, cltv_rel: 1100, forward: false, meta: Meta::Normal, extra: vec![], raw_payload: None }).collect();
     let scn = crate::props::c13::blank(payments, htlcs, 1);
     let ch = ["\u{e9}", "\u{20ac}", "\u{1f600}"][c.width as usize % 3];
@@ -985,7 +997,7 @@ fn run_inflight_notify(c: &InFlightNotify) -> CaseReport {
         return rep;
     }
     let cfg = Cfg { mpp_timeout_s: 1, ..Cfg::default() };
-    let pay = PaymentSpec { preimage: 0x37, invoice_amount: Some(1_000_000), tlv_amount: 1_000_000, hints: Hints::None, explicit_payee: false, recipient_ok: true, drain_parts: 1 };
+    let pay = PaymentSpec { preimage_hi: 0, preimage: 0x37, invoice_amount: Some(1_000_000), tlv_amount: 1_000_000, hints: Hints::None, explicit_payee: false, recipient_ok: true, drain_parts: 1 };
     let need = needed_total(&cfg, 1_000_000);
     let n = c.replayed.max(1) as usize;
     let htlcs: Vec<HtlcSpec> = (0..n).map(|_| HtlcSpec { pay: 0, hash_of: None, amount_msat: need / 3, total_msat: Some(need), forward_msat: Some(need / 3), cltv_expiry: 1000 + 1200, cltv_rel: 1100, forward: false, meta: Meta::Normal, extra: vec![], raw_payload: None }).collect();
@@ -1087,6 +1099,118 @@ pub fn c02_e2e_quick(s: &mut Session) {
     });
 }
 
+// ------------------------------------------------------------------ C05/C08: a node upgraded/restarted with its datastore in place
+
+#[derive(Clone, Debug, Serialize, Deserialize)]
+pub struct PaidEarlier {
+    /// the payment was made this many days ago (attempt ids are nanoseconds since the epoch)
+    pub age_days: u32,
+    /// other hashes with old failed attempts lying around in the datastore
+    pub other_failed: u8,
+}
+
+/// The datastore holds what earlier runs of the pinned release wrote: a paid invoice (Succeeded record, attempt
+/// completed+success, complete part on the node) and failed attempts of other hashes. The binary starts on top
+/// of it (everything main() does at startup runs), then an HTLC for the paid invoice arrives.
+fn run_paid_earlier(c: &PaidEarlier, prop: &'static str) -> CaseReport {
+    let mut rep = CaseReport::default();
+    if bin_missing() {
+        rep.inconclusive = true;
+        return rep;
+    }
+    let cfg = Cfg { mpp_timeout_s: 1, ..Cfg::default() };
+    let pay = PaymentSpec { preimage_hi: 0, preimage: 0x38, invoice_amount: Some(1_000_000), tlv_amount: 1_000_000, hints: Hints::None, explicit_payee: false, recipient_ok: true, drain_parts: 1 };
+    let need = needed_total(&cfg, 1_000_000);
+    let h = HtlcSpec { pay: 0, hash_of: None, amount_msat: need, total_msat: Some(need), forward_msat: Some(need), cltv_expiry: 1000 + 1200, cltv_rel: 1100, forward: false, meta: Meta::Normal, extra: vec![], raw_payload: None };
+    let scn = crate::props::c13::blank(vec![pay.clone()], vec![h], 1);
+    let now_ns = std::time::SystemTime::now().duration_since(std::time::UNIX_EPOCH).map(|d| d.as_nanos()).unwrap_or(0);
+    let day_ns: u128 = 86_400 * 1_000_000_000;
+    let paid_at = now_ns.saturating_sub(c.age_days as u128 * day_ns);
+    let key = |hash: &[u8; 32], tail: &[&str]| {
+        let mut k = vec!["trampoline".to_string(), "payments".to_string(), hex::encode(hash)];
+        k.extend(tail.iter().map(|s| s.to_string()));
+        k
+    };
+    let mut recs = vec![
+        (key(&pay.hash(), &["state"]), json!({"Succeeded": {"preimage": pay.preimage_bytes().to_vec()}}).to_string()),
+        (key(&pay.hash(), &["attempts", &paid_at.to_string()]), json!({"amount_msat": 1_000_000u64, "bolt11": build_invoice(&pay, InvKind::Normal), "completed": true, "success": true}).to_string()),
+    ];
+    for i in 0..c.other_failed {
+        let other = PaymentSpec { preimage_hi: 0, preimage: 0x80 + i, ..pay.clone() };
+        recs.push((key(&other.hash(), &["state"]), "\"Free\"".to_string()));
+        let at = now_ns.saturating_sub((c.age_days as u128 + 1 + i as u128) * day_ns);
+        recs.push((key(&other.hash(), &["attempts", &at.to_string()]), json!({"amount_msat": 1_000_000u64, "bolt11": build_invoice(&other, InvKind::Normal), "completed": true, "success": false}).to_string()));
+    }
+    let state_key = key(&pay.hash(), &["state"]);
+    let r = rt();
+    let res: Result<(), String> = r.block_on(async {
+        PRESET.with(|p| *p.borrow_mut() = (recs.clone(), vec![pay.hash()]));
+        let started = Proc::start(default_options(), None, PayMode::Complete, 1000, &[pay.preimage_bytes()]).await;
+        PRESET.with(|p| *p.borrow_mut() = (vec![], vec![]));
+        let mut p = match started? {
+            Started::Running(p) => p,
+            Started::Refused { stderr, .. } => return Err(format!("refused: {stderr}")),
+        };
+        // give startup work (whatever main() does with the datastore) time to finish
+        tokio::time::sleep(Duration::from_millis(500)).await;
+        let stored = p.shared.lock().unwrap().node.datastore.get(&state_key).map(|x| x.0.clone());
+        if !stored.as_deref().map(|s| s.contains("Succeeded")).unwrap_or(false) {
+            rep.violations.push(Violation::new(
+                "C08",
+                "record_of_completed_payment_gone_after_startup",
+                format!("the node holds a complete outgoing part for the hash, the datastore held its Succeeded record (payment made {} days ago); after the plugin started the state record is {:?}", c.age_days, stored),
+            ));
+        }
+        p.send_htlc(json!("late"), &scn.render(0)).await;
+        let ans = p.wait_reply(&json!("late"), 8000).await;
+        let pays = p.rpcs().into_iter().filter(|r| r.0 == "pay").count();
+        if pays > 0 {
+            rep.violations.push(Violation::new("C05", "paid_invoice_paid_again_after_restart", format!("invoice paid {} days ago (complete part on the node): {pays} new pay request(s) after a restart; HTLC answered {:?}", c.age_days, ans.as_ref().map(|a| a["result"].clone()))));
+        }
+        match ans {
+            Some(a) if a["result"]["result"] == "resolve" && a["result"]["payment_key"] == json!(hex::encode(pay.preimage_bytes())) => {}
+            Some(a) => {
+                if pays == 0 {
+                    rep.violations.push(Violation::new("C05", "late_htlc_of_paid_invoice_not_settled_from_record", format!("answered {}", a["result"])));
+                }
+            }
+            None => {
+                if let Some(m) = p.panicked() {
+                    rep.violations.push(Violation::new("C06", "panic_in_binary", m));
+                } else {
+                    rep.inconclusive = true;
+                }
+            }
+        }
+        p.stop().await;
+        Ok(())
+    });
+    if let Err(e) = res {
+        rep.inconclusive = true;
+        rep.classes.push(format!("infrastructure: {}", e.chars().take(80).collect::<String>()));
+    }
+    let _ = prop;
+    rep.nontrivial = !rep.inconclusive;
+    rep.fingerprint = fp_of(&(c.age_days, c.other_failed));
+    rep.classes.push(format!("e2e_start_on_datastore_of_earlier_runs_paid_{}_days_ago", c.age_days));
+    rep.sample = Some(serde_json::to_value(c).unwrap());
+    rep
+}
+
+pub fn replay_paid_earlier(prop: &'static str, c: Value) -> Option<CaseReport> {
+    Some(run_paid_earlier(&serde_json::from_value(c).ok()?, prop))
+}
+
+pub fn paid_earlier_e2e(s: &mut Session, prop: &'static str) {
+    e2e_workers_note(s);
+    booked(s, |s| {
+        s.assume("E2E: records written by the release this harness is pinned to (stored format of that commit, attempt ids = nanoseconds since the epoch) belong to the input domain: the binary is started on a datastore earlier runs filled");
+        s.regress::<PaidEarlier, _>("e2e-paid-earlier", move |c| run_paid_earlier(c, prop));
+        let cases = vec![PaidEarlier { age_days: 0, other_failed: 0 }, PaidEarlier { age_days: 40, other_failed: 5 }, PaidEarlier { age_days: 400, other_failed: 40 }, PaidEarlier { age_days: 3, other_failed: 100 }];
+        s.enumerate("e2e-start-on-datastore-of-earlier-runs", "e2e-paid-earlier", cases, move |c| run_paid_earlier(c, prop));
+    });
+}
+
 pub fn c02_e2e(s: &mut Session) {
     e2e_workers_note(s);
     booked(s, |s| {
@@ -1127,7 +1251,7 @@ fn run_poll(c: &PollCase) -> CaseReport {
     }
     let new_h = c.start + c.raise;
     let cfg = Cfg { mpp_timeout_s: 1, ..Cfg::default() };
-    let pay = PaymentSpec { preimage: 0x34, invoice_amount: Some(1_000_000), tlv_amount: 1_000_000, hints: Hints::None, explicit_payee: false, recipient_ok: false, drain_parts: 0 };
+    let pay = PaymentSpec { preimage_hi: 0, preimage: 0x34, invoice_amount: Some(1_000_000), tlv_amount: 1_000_000, hints: Hints::None, explicit_payee: false, recipient_ok: false, drain_parts: 0 };
     let need = needed_total(&cfg, 1_000_000);
     let expiry = new_h + c.expiry_above;
     let h = HtlcSpec { pay: 0, hash_of: None, amount_msat: need, total_msat: Some(need), forward_msat: Some(need), cltv_expiry: expiry, cltv_rel: 1100, forward: false, meta: Meta::Normal, extra: vec![], raw_payload: None };
